@@ -14,7 +14,7 @@ TRUSTED = SC.TRUSTED
 ASSUMPTIONS = SC.ASSUMPTIONS
 META = dict(technique='Coq proof (call-log invariant: every evaluated point is an output of the constraints in force) + trace correspondence by vm_compute',
             level_text="Theorems: in solvers nesting the constraints in the objective every evaluated point is an output of the constraints in force (so satisfies them when idempotent), for all op sequences incl. mid-run installation; same for both DE solvers. The 'reported result satisfies the constraints' clause is a theorem for both DE solvers (C03_de_result_constrained: best and members were evaluated at outputs of the constraints in force, or never evaluated) and for Nelder-Mead (C03_nm_result_constrained: the reported best is a fixed point of the idempotent constraints function) over clean runs; for Powell and for runs reconfigured in the middle it is decided by the correspondence (machine applies the constraints to the best vertex / trial exactly where the code does) and by the oracle on real runs at every stop point.",
-            level_note='Trusted: Coq kernel+VM; harness (generators, instrumentation of /repo from outside, printers, oracles). User cost/constraints/penalty, DE trial vectors, Nelder-Mead candidate points, argsort permutation and post-decoration populations are oracle inputs (recorded in the correspondence, universally quantified in theorems). Powell: line-search probes and the returned index are oracle inputs. Not in the machine model (oracle only): ensembles, tight/clip range modes. No NaN energies.',
+            level_note='Trusted: Coq kernel+VM; harness (generators, instrumentation of /repo from outside, printers, oracles). User cost/constraints/penalty, DE trial vectors, Nelder-Mead candidate points, argsort permutation and post-decoration populations are oracle inputs (recorded in the correspondence, universally quantified in theorems). Powell: line-search probes and the returned index are oracle inputs. Tight / clip=True range modes: the composite constraints.and_(constraints, bounds) is a recorded table. Not in the machine model (oracle only): ensembles, clip=False ranges. No NaN energies.',
             design_ref="5/C03")
 
 _generate = SC.make_generate(**dict(allow_modes=True, det_modes=True))
